@@ -89,7 +89,7 @@ func storeDump(s *drv.Server, buckets []string) string {
 
 func runC16(c *Ctx) {
 	r := c.R
-	r.SetRule("random request sequences (40-80 logical requests over the routed surface: bucket create/head/delete/list V1+V2/location/versioning/versions/uploads/multi-delete, object put/get/head/delete/copy/range/versionId, multipart initiate/part/list/complete/abort, browser POST) on buckets {alpha, beta-2} (one request in seven addressed to a label that is not a bucket: other letter case, a prefix or extension of a bucket name, invalid characters) and keys incl. nested and escaped ones and keys that repeat a bucket's name; each logical request is sent path-style to P, host-style to H (WithHostBucket) and to HB (WithHostBucketBase, two bases with and without port) and the three answers must be identical except request ids and the Location of CompleteMultipartUpload (which instead is followed: fetched from the same server it must be the completed object); fallback hosts (base itself, multi-label prefix, empty label, unrelated, IP) must be answered by HB exactly as P answers the same path, for reads in the random sequences and for a mutating multipart scenario whose Location is compared unmasked and followed; extra leading/trailing slashes must not change the addressed bucket/key; a 25 MiB browser upload over a real connection in each style must leave no spool file behind once the server has finished the request; distinct = (backend, host form, request signature)")
+	r.SetRule("random request sequences (40-80 logical requests over the routed surface: bucket create/head/delete/list V1+V2/location/versioning/versions/uploads/multi-delete, object put/get/head/delete/copy/range/versionId, multipart initiate/part/list/complete/abort, browser POST) on buckets {alpha, beta-2} (one request in seven addressed to a label that is not a bucket: other letter case, a prefix or extension of a bucket name, invalid characters) and keys incl. nested and escaped ones and keys that repeat a bucket's name; each logical request is sent path-style to P, host-style to H (WithHostBucket) and to HB (WithHostBucketBase, two bases with and without port) and the three answers must be identical except request ids and the Location of CompleteMultipartUpload (which instead is followed: fetched from the same server it must be the completed object); fallback hosts (base itself, multi-label prefix, empty label, unrelated, IP) must be answered by HB exactly as P answers the same path, for reads in the random sequences and for a mutating multipart scenario whose Location is compared unmasked and followed; extra leading/trailing slashes must not change the addressed bucket/key; six clients addressing six buckets host-style at the same time, each reading and rewriting only its own bucket (2500 requests each); a 25 MiB browser upload over a real connection in each style must leave no spool file behind once the server has finished the request; distinct = (backend, host form, request signature)")
 	fixed := time.Date(2021, 3, 4, 5, 6, 7, 0, time.UTC)
 	nseq := r.Pick(300, 6000)
 	kinds := []string{drv.Mem, drv.Bolt}
@@ -115,6 +115,8 @@ func runC16(c *Ctx) {
 		c16FallbackMutating(r, k, fixed, bases)
 	}
 	c16SpoolFiles(r, fixed, bases)
+	c16Concurrent(r, fixed, bases)
+	r.Require("concurrent_host_style_requests", 10000)
 	r.Require("large_form_uploads", 4)
 	r.Require("fallback_locations_compared", 20)
 	r.Require("paired_requests", 10000)
